@@ -1260,7 +1260,7 @@ int32_t jls_core_repair_fsr(struct jls_core_s * self, uint16_t signal_id) {
             return JLS_ERROR_PARAMETER_INVALID;
         }
         size_t sz = sizeof(r->header) + r->header.entry_count * sizeof(r->offsets[0]);
-        if (sz > self->buf->length) {
+        if (sz > index_head.hdr.payload_length) {  // buf now holds the summary, not the index
             JLS_LOGE("invalid payload length");
             return JLS_ERROR_PARAMETER_INVALID;
         }
